@@ -101,7 +101,7 @@ Record flags := mkFlags {
 Fixpoint has_crds (c : chart) : bool :=
   match c with
   | Chart _ _ _ _ deps _ _ crds =>
-      crds || (fix go (ds : list chart) : bool :=
+      negb (match crds with [] => true | _ => false end) || (fix go (ds : list chart) : bool :=
                  match ds with [] => false | d :: t => has_crds d || go t end) deps
   end.
 
